@@ -86,7 +86,7 @@ def _labels_from_opt(o):
 @st.composite
 def models(draw, max_bodies=3, family=None, contacts=True, sensors=True, opt_kwargs=None, mocap=True,
            actuators=True, tendons=True, equalities=True, plane=None, spread=0.6, stateful=True, min_bodies=1,
-           actearly=False, joint_types=mg.JOINT_TYPES, userdata=False):
+           actearly=False, joint_types=mg.JOINT_TYPES, userdata=False, extras=False):
   oxml, oinfo = draw(options(**(opt_kwargs or {})))
   fam = family or draw(st.sampled_from(['A', 'A', 'B']))
   gts = SUPPORTED_GEOMS_A if fam == 'A' else SUPPORTED_GEOMS_B
@@ -97,9 +97,33 @@ def models(draw, max_bodies=3, family=None, contacts=True, sensors=True, opt_kwa
                       geom_kwargs=dict(condims=condims, small=True)))
   if not actearly:
     gm.xml = gm.xml.replace(' actearly="true"', '')
+  xl = set()
+  if extras:
+    # features vf.modelgen does not draw: tendon spring dead-bands (springlength="lo hi"), body gravcomp, joint
+    # actuatorgravcomp and actuatorfrcrange
+    parts = re.split(r'(<fixed [^>]*>|<spatial [^>]*>|<body [^>]*>|<joint [^>]*>)', gm.xml)
+    for i, t in enumerate(parts):
+      if t.startswith('<fixed ') and 'stiffness=' in t and draw(st.booleans()):
+        parts[i] = t[:-1] + ' springlength="-%s %s">' % (mg.fmt(draw(mg.num(0.0, 0.4))), mg.fmt(draw(mg.num(0.02, 0.5))))
+        xl.add('tendon:deadband')
+      elif t.startswith('<spatial ') and 'stiffness=' in t and draw(st.booleans()):
+        lo = draw(mg.num(0.1, 0.6))
+        parts[i] = t[:-1] + ' springlength="%s %s">' % (mg.fmt(lo), mg.fmt(lo + draw(mg.num(0.05, 0.6))))
+        xl.add('tendon:deadband')
+      elif t.startswith('<body ') and 'mocap=' not in t and draw(st.integers(0, 2)) == 0:
+        parts[i] = t[:-1] + ' gravcomp="%s">' % mg.fmt(draw(mg.num(0.2, 1.5, 1)))
+        xl.add('gravcomp')
+      elif t.startswith('<joint ') and ('type="hinge"' in t or 'type="slide"' in t) and draw(st.integers(0, 2)) == 0:
+        add = ' actuatorfrcrange="-%s %s"' % (mg.fmt(draw(mg.num(0.1, 3, 1))), mg.fmt(draw(mg.num(0.1, 3, 1))))
+        xl.add('actuatorfrcrange')
+        if draw(st.booleans()):
+          add += ' actuatorgravcomp="true"'
+          xl.add('actuatorgravcomp')
+        parts[i] = t[:-2] + add + '/>'
+    gm.xml = ''.join(parts)
   gm.info['option'] = oinfo
   gm.info['family'] = fam
-  gm.info['labels'] = sorted(set(gm.info['labels']) | set(_labels_from_opt(oinfo)) | {'family:' + fam})
+  gm.info['labels'] = sorted(set(gm.info['labels']) | set(_labels_from_opt(oinfo)) | {'family:' + fam} | xl)
   return gm
 
 
@@ -348,15 +372,17 @@ _T_CONTACT = ('<mujoco>' + _OPT + '<worldbody><geom name="floor" type="plane" si
               '</worldbody></mujoco>')
 
 _T_TENDON = ('<mujoco>' + _OPT + '<worldbody>'
-             '<body name="b1" pos="0 0 1"><joint name="h1" type="hinge" axis="0 1 0" damping="%(d1)s" armature="0.1"/>'
+             '<body name="b1" pos="0 0 1" gravcomp="%(gc1)s"><joint name="h1" type="hinge" axis="0 1 0" damping="%(d1)s" armature="0.1" '
+             'actuatorgravcomp="true" actuatorfrcrange="-%(fr)s %(fr)s"/>'
              '<geom type="capsule" size=".04 .2" pos="0 0 -.2"/><site name="s1" pos="0.05 0 -0.3"/>'
-             '<body name="b2" pos="0 0 -.4"><joint name="h2" type="hinge" axis="1 0 0" damping="%(d2)s"/>'
+             '<body name="b2" pos="0 0 -.4" gravcomp="%(gc2)s"><joint name="h2" type="hinge" axis="1 0 0" damping="%(d2)s" actuatorgravcomp="%(agc2)s"/>'
              '<geom type="capsule" size=".04 .2" pos="0 0 -.2"/><site name="s2" pos="0 0.05 -0.35"/></body></body>'
              '<body name="b3" pos="0.5 0 1"><joint name="sl" type="slide" axis="0 0 1" damping="0.3"/><geom type="sphere" size=".08"/>'
              '<site name="s3" pos="0 0 .1"/></body></worldbody>'
-             '<tendon><fixed name="t0" damping="%(td)s" stiffness="%(ts)s" frictionloss="%(tf)s" armature="0.07" limited="true" range="-0.3 0.3">'
-             '<joint joint="h1" coef="1"/><joint joint="h2" coef="-0.7"/></fixed>'
-             '<spatial name="t1" damping="%(td2)s" stiffness="5"><site site="s1"/><site site="s2"/><site site="s3"/></spatial></tendon>'
+             '<tendon><fixed name="t0" damping="%(td)s" stiffness="%(ts)s" springlength="-%(sl0)s %(sl1)s" frictionloss="%(tf)s" armature="0.07" '
+             'limited="true" range="-0.3 0.3"><joint joint="h1" coef="1"/><joint joint="h2" coef="-0.7"/></fixed>'
+             '<spatial name="t1" damping="%(td2)s" stiffness="5" springlength="%(sp0)s %(sp1)s"><site site="s1"/><site site="s2"/><site site="s3"/></spatial>'
+             '<fixed name="t2" stiffness="%(ts2)s" springlength="-0.7 0.8"><joint joint="h1" coef="0.8"/><joint joint="sl" coef="1"/></fixed></tendon>'
              '<equality><joint joint1="h2" joint2="sl" polycoef="0 0.5 0 0 0"/><tendon tendon1="t0" active="%(eqa)s"/></equality>'
              '<actuator><position name="a0" tendon="t1" kp="20" kv="1"/><general name="a1" joint="h1" dyntype="filter" dynprm="0.1" gainprm="3"/></actuator>'
              '<sensor><tendonpos tendon="t1"/><tendonvel tendon="t0"/><actuatorfrc actuator="a0"/><jointpos joint="h2"/></sensor></mujoco>')
@@ -384,8 +410,15 @@ def pinned(draw, kind):
     xml, scale, labels = _T_CONTACT % p, 0.004, ['pinned:contact', 'geom:capsule', 'jnt:free']
   elif kind == 'tendon':
     p = dict(dt='0.004', int='Euler', cone='pyramidal', imp='1', d1=n(0.1, 1.5), d2=n(0.1, 1.5),
-             td=n(0.2, 2), ts=n(1, 15, 1), tf=n(0.05, 0.5), td2=n(0.1, 1.5), eqa=draw(st.sampled_from(['true', 'false'])))
-    xml, scale, labels = _T_TENDON % p, 0.6, ['pinned:tendon', 'tendon:fixed', 'tendon:spatial', 'eq:joint', 'eq:tendon', 'jnt:hinge', 'jnt:slide']
+             td=n(0.2, 2), ts=n(1, 15, 1), tf=n(0.05, 0.5), td2=n(0.1, 1.5), eqa=draw(st.sampled_from(['true', 'false'])),
+             # spring dead-bands (springlength="lo hi", lo < hi): t0 narrow (lengths below / inside / above occur over the state
+             # batch), t2 wide (almost always inside), t1 spatial around its typical length
+             sl0=n(0.05, 0.2), sl1=n(0.05, 0.25), sp0=n(0.55, 0.7), sp1=n(0.8, 1.0), ts2=n(2, 12, 1),
+             # gravity compensation routed through the actuators (actuatorgravcomp) with a joint force limit that the
+             # filter actuator (|force| <= 3) plus the gravcomp torque (up to ~4) saturates for most states
+             gc1=n(0.5, 1.5, 1), gc2=n(0.3, 1.2, 1), fr=n(0.8, 2.5, 1), agc2=draw(st.sampled_from(['true', 'false'])))
+    xml, scale, labels = _T_TENDON % p, 0.6, ['pinned:tendon', 'tendon:fixed', 'tendon:spatial', 'tendon:deadband', 'gravcomp', 'actuatorgravcomp', 'actuatorfrcrange',
+                          'eq:joint', 'eq:tendon', 'jnt:hinge', 'jnt:slide']
   else:
     p = dict(dt='0.003', int='RK4', cone='pyramidal', imp='1', rng=str(draw(st.integers(15, 40))), d1=n(0.05, 0.5),
              cd1=str(draw(st.sampled_from([1, 3, 4]))))
